@@ -2,6 +2,7 @@ package main
 
 import (
 	"fmt"
+	"go/token"
 	"go/types"
 	"sort"
 	"strings"
@@ -609,7 +610,13 @@ func (e *Engine) havocItem(st *State, env *SpecEnv, item string) {
 						}
 					}
 				}
-				e.havocObject(st, Val{T: v.V.Fs[1].T}, dt)
+				switch dt.Underlying().(type) {
+				case *types.Slice, *types.Map:
+					// a boxed slice or map (sort.Slice(xs, less)): its elements are what the callee may write
+					e.havocObject(st, e.unbox(st, v.V.Fs[1].T, dt), dt)
+				default:
+					e.havocObject(st, Val{T: v.V.Fs[1].T}, dt)
+				}
 				if x.Fn == "dynfresh" {
 					if pt, ok := dt.Underlying().(*types.Pointer); ok && !isBigInt(pt.Elem()) && kindOf(pt.Elem()) != kOpaque {
 						nv := st.load(derefPlace(v.V.Fs[1].T, dt))
@@ -871,6 +878,89 @@ func (e *Engine) lookupType(pkgShort, name string, from *types.Package) types.Ty
 // ---------------------------------------------------------------------
 // builtins
 
+// realRefs counts the instructions that use v, debug references aside.
+func realRefs(v ssa.Value) int {
+	rs := v.Referrers()
+	if rs == nil {
+		return -1
+	}
+	n := 0
+	for _, r := range *rs {
+		if _, dbg := r.(*ssa.DebugRef); !dbg {
+			n++
+		}
+	}
+	return n
+}
+
+// madeLocal: dst is a load of a local (non-escaping) cell into which a slice made in the same block was stored, and
+// between that store and `at` the cell is only loaded for `at` itself; the made slice has no other use than the store.
+func madeLocal(dst ssa.Value, at ssa.Instruction) (*ssa.Alloc, bool) {
+	ld, ok := dst.(*ssa.UnOp)
+	if !ok || ld.Op != token.MUL {
+		return nil, false
+	}
+	al, ok := ld.X.(*ssa.Alloc)
+	if !ok || al.Heap || ld.Block() != at.Block() {
+		return nil, false
+	}
+	if realRefs(ld) != 1 {
+		return nil, false
+	}
+	stage := 0 // 0: before the store of a made slice, 1: after it
+	for _, in := range at.Block().Instrs {
+		if in == at {
+			return al, stage == 1
+		}
+		if stv, ok := in.(*ssa.Store); ok && stv.Addr == ssa.Value(al) {
+			ms, made := stv.Val.(*ssa.MakeSlice)
+			if !made {
+				stage = 0
+				continue
+			}
+			if realRefs(ms) != 1 {
+				return nil, false
+			}
+			stage = 1
+			continue
+		}
+		if stage == 1 && in != ssa.Instruction(ld) {
+			for _, op := range in.Operands(nil) {
+				if *op == ssa.Value(al) {
+					return nil, false
+				}
+			}
+		}
+	}
+	return nil, false
+}
+
+// freshUntil: ms was made in the block of `at` and no instruction between the two uses it.
+func freshUntil(ms *ssa.MakeSlice, at ssa.Instruction) bool {
+	if ms.Block() != at.Block() {
+		return false
+	}
+	seen := false
+	for _, in := range ms.Block().Instrs {
+		if in == ssa.Instruction(ms) {
+			seen = true
+			continue
+		}
+		if in == at {
+			return seen
+		}
+		if !seen {
+			continue
+		}
+		for _, op := range in.Operands(nil) {
+			if *op == ssa.Value(ms) {
+				return false
+			}
+		}
+	}
+	return false
+}
+
 func (e *Engine) builtin(fr *Frame, st *State, ins ssa.Instruction, b *ssa.Builtin, cc *ssa.CallCommon, args []Val, resType types.Type) Val {
 	switch b.Name() {
 	case "len":
@@ -907,6 +997,36 @@ func (e *Engine) builtin(fr *Frame, st *State, ins ssa.Instruction, b *ssa.Built
 		if kindOf(dt) == kSlice {
 			e.havocObject(st, args[0], dt)
 			st.assume(Le(n, args[0].Fs[2].T))
+		} else if al, ok := madeLocal(cc.Args[0], ins); ok {
+			// the same idiom in the naive SSA form: `x := make([]byte, n)` stored into the local cell x, loaded for the
+			// copy; nothing else touched the cell or the made slice in between
+			id, has := fr.cellOf[al]
+			if !has || kindOf(cc.Args[1].Type()) != kSeq {
+				unsupp("copy into byte slice (immutable sequence abstraction)")
+			}
+			dst := args[0].T
+			src := args[1].T
+			r := Fresh("copied", SSeq)
+			st.assume(Eq(seqLen(r), seqLen(dst)))
+			st.assume(Ne(r, nilBytes()))
+			st.assume(Implies(And(Eq(seqLen(src), seqLen(dst)), Ne(src, nilBytes())), Eq(r, src)))
+			st.assume(Le(n, seqLen(dst)))
+			st.cells[id] = scalar(r)
+		} else if ms, ok := cc.Args[0].(*ssa.MakeSlice); ok && freshUntil(ms, ins) {
+			// the copy-out idiom `x := make([]byte, len(src)); copy(x, src)`: x is a byte slice made in this block and
+			// not used by anything before the copy, so no alias of it exists; from here on x denotes a sequence of the
+			// made length that equals src when the lengths agree (and src is not the nil slice)
+			dst := args[0].T
+			src := args[1].T
+			if kindOf(cc.Args[1].Type()) != kSeq {
+				unsupp("copy into byte slice from %s", cc.Args[1].Type())
+			}
+			r := Fresh("copied", SSeq)
+			st.assume(Eq(seqLen(r), seqLen(dst)))
+			st.assume(Ne(r, nilBytes()))
+			st.assume(Implies(And(Eq(seqLen(src), seqLen(dst)), Ne(src, nilBytes())), Eq(r, src)))
+			st.assume(Le(n, seqLen(dst)))
+			fr.regs[ms] = scalar(r)
 		} else {
 			unsupp("copy into byte slice (immutable sequence abstraction)")
 		}
